@@ -85,6 +85,7 @@ type expNode struct {
 	Busy    bool             `json:"busy"`
 	LastApp int64            `json:"lastapp"`
 	Parked  bool             `json:"parked"`
+	Queued  int              `json:"queued"`
 	Cursors intMap           `json:"cursors"`
 }
 
@@ -279,6 +280,9 @@ func (r *runner) compare(e *exp) (string, string) {
 		}
 		if x.Parked && !r.sim.IsParked("sync", n, n) {
 			return "parked", fmt.Sprintf("%s: a sync round should be pending", n)
+		}
+		if x.Parked && p.Queued != x.Queued {
+			return "parked", fmt.Sprintf("%s: sync requests queued behind the pending round spec %d code %d", n, x.Queued, p.Queued)
 		}
 		running, _ := r.blRunning(n)
 		if x.Busy != running {
